@@ -599,6 +599,12 @@ acquire_stop(struct AcquireRuntime* self_)
                 TRACE("[stream: %d] Monitor flushed %llu bytes", i, nbytes);
             } while (nbytes);
         }
+
+        // Everything has been consumed: start the next acquisition at the
+        // beginning of the queue. A monitor that first attaches during a later
+        // acquisition begins reading there and must not be handed frames of
+        // this one.
+        channel_rewind(&video->sink.in);
     }
     self->state = DeviceState_Armed;
 
